@@ -1,6 +1,7 @@
 package props
 
 import (
+	"context"
 	"fmt"
 	"math/rand"
 	"os"
@@ -70,7 +71,11 @@ type c10Op struct {
 	F    func(in string) string
 }
 
-func sortedStrs(xs []string) string { ys := append([]string(nil), xs...); sort.Strings(ys); return strings.Join(ys, ",") }
+func sortedStrs(xs []string) string {
+	ys := append([]string(nil), xs...)
+	sort.Strings(ys)
+	return strings.Join(ys, ",")
+}
 
 var c10ConfigPath string
 
@@ -93,6 +98,24 @@ func c10Ops() []c10Op {
 			d := dump.Dump(a)
 			ast.ReleaseAST(a)
 			return d
+		}},
+		{"parse-context", func(s string) string {
+			// the context-aware entry points; the tree is held while a second one is parsed, then both are compared with
+			// what a sequential run gives
+			a1, err1 := gosqlx.ParseWithContext(context.Background(), s)
+			a2, err2 := gosqlx.ParseWithTimeout(s, time.Minute)
+			out := errDigest(err1) + errDigest(err2)
+			if a1 != nil {
+				out += dump.Dump(a1)
+			}
+			if a2 != nil {
+				out += dump.Dump(a2)
+				ast.ReleaseAST(a2)
+			}
+			if a1 != nil {
+				ast.ReleaseAST(a1)
+			}
+			return out
 		}},
 		{"parse-pooled", func(s string) string {
 			a, err := parser.ParseBytes([]byte(s))
@@ -199,7 +222,7 @@ func c10Inputs(seed int64) []string {
 		"INSERT INTO t (a, b) VALUES (1, 'x'), (2, 'y') ON CONFLICT (a) DO UPDATE SET b = 'z' RETURNING a",
 		"UPDATE t SET a = a + 1 WHERE b = (SELECT MAX(c) FROM u)", "DELETE FROM t WHERE a BETWEEN 1 AND 10",
 		"SELECT a -- trailing comment\nFROM t /* block */ WHERE x = 'it''s'", "select   a ,b from t where 1=1 or SLEEP(5) > 0",
-		"SELECT FROM", "SELECT a FROM t WHERE ]", "SELECT 'unterminated", "SELECT a FROM t;; SELECT b FROM u", "",
+		"SELECT FROM", "SELECT a FROM t WHERE ]", "SELECT 'unterminated", "SELECT a FROM t;; SELECT b FROM u", "", ";", " ; ; ", "-- only a comment",
 		"CREATE TABLE t (a INT PRIMARY KEY, b TEXT NOT NULL DEFAULT 'x')", "SELECT RANK() OVER (PARTITION BY a ORDER BY b ROWS BETWEEN 1 PRECEDING AND CURRENT ROW) FROM t",
 		"MERGE INTO t USING s ON t.a = s.a WHEN MATCHED THEN UPDATE SET b = s.b WHEN NOT MATCHED THEN INSERT (a) VALUES (s.a)",
 	}
